@@ -270,12 +270,16 @@ class SInt:
 
     # -- arithmetic
     def _b(self, o, f):
+        if hasattr(o, "__sym_int__"):
+            return NotImplemented  # NumPy scalar proxy: NEP 50 - the NumPy operand decides the result type
         l = lift(o)
         if l is None:
             return NotImplemented
         return SInt(f(self.e, l))
 
     def _rb(self, o, f):
+        if hasattr(o, "__sym_int__"):
+            return NotImplemented
         l = lift(o)
         if l is None:
             return NotImplemented
@@ -363,6 +367,8 @@ class SInt:
 
     # -- comparisons
     def _c(self, o, f):
+        if hasattr(o, "__sym_int__"):
+            return NotImplemented
         l = lift(o)
         if l is None:
             from . import rat
@@ -408,6 +414,8 @@ class SInt:
 
     # -- bit operations
     def __lshift__(s, k):
+        if hasattr(k, "__sym_int__"):
+            return NotImplemented
         if isinstance(k, SInt):
             k = k.concrete_or_none()
         if not isinstance(k, int):
@@ -420,6 +428,8 @@ class SInt:
         return o << k
 
     def __rshift__(s, k):
+        if hasattr(k, "__sym_int__"):
+            return NotImplemented
         if isinstance(k, SInt):
             k = k.concrete_or_none()
         if not isinstance(k, int):
@@ -432,6 +442,8 @@ class SInt:
         return o >> k
 
     def _bv(s, o, f):
+        if hasattr(o, "__sym_int__"):
+            return NotImplemented
         l = lift(o)
         if l is None:
             return NotImplemented
@@ -452,6 +464,8 @@ class SInt:
     __rand__ = __and__
 
     def __or__(s, o):
+        if hasattr(o, "__sym_int__"):
+            return NotImplemented
         bs, bo = s.bits, _bits_of(o)
         if bs is not None and bo is not None and (bs[1] <= bo[0] or bo[1] <= bs[0] or bs[0] == bs[1] or bo[0] == bo[1]):
             l = lift(o)
